@@ -102,7 +102,7 @@ func (s *Store) CreateAccessAndRefreshTokens(ctx context.Context, request op.Tok
 	defer s.mu.Unlock()
 	now := s.now()
 	tenant := s.tenant(ctx)
-	rt := &RefreshToken{ClientID: q.clientID, Subject: q.subject, Audience: q.audience, Scopes: q.scopes, AMR: q.amr, AuthTime: q.authTime, Tenant: tenant}
+	rt := &RefreshToken{ClientID: q.clientID, Subject: q.subject, Audience: s.keep(q.audience), Scopes: s.keep(q.scopes), AMR: s.keep(q.amr), AuthTime: q.authTime, Tenant: tenant}
 	if currentRefreshToken != "" { // rotation: the old record lives on under a new string
 		old, ok := s.refreshOf(tenant, currentRefreshToken)
 		if !ok {
@@ -158,7 +158,7 @@ func (r refreshRequest) GetSubject() string {
 
 // SetCurrentScopes narrows the scopes of the stored refresh token.
 func (r refreshRequest) SetCurrentScopes(scopes []string) {
-	get(r, func(t *RefreshToken) bool { t.Scopes = slices.Clone(scopes); return true })
+	get(r, func(t *RefreshToken) bool { t.Scopes = r.s.keep(slices.Clone(scopes)); return true })
 }
 
 func (s *Store) TokenRequestByRefreshToken(ctx context.Context, refreshToken string) (op.RefreshTokenRequest, error) {
